@@ -87,6 +87,40 @@ def pair_strings(case: dict) -> list:
     return out
 
 
+# Text that is escape syntax of some *other* layer (XML/HTML character references, percent-encoding, quoted-printable,
+# U+ notation, printf/format directives, shell/SQL quoting, RTF words without their backslash).  For rtflite it is
+# ordinary text and must be read back unchanged.  Backslash / brace spellings (\\u0041, \\x41, {\\b x}, \\'e9) are not
+# listed: they are raw RTF by the documented pass-through and therefore outside this property's space.
+FOREIGN_TARGETS_QUICK = [0x41, 0x20, 0xE9, 0x20AC, 0x1F600, 0x0, 0x5C, 0x7B, 0xD83D, 0x110000]
+FOREIGN_TARGETS_MORE = [0x7F, 0x80, 0xFF, 0x100, 0x7FFF, 0x8000, 0xFFFF, 0x10000, 0x10FFFF, 0xDE00, 0x9, 0xA, 0x26, 0x23, 0x3B]
+FOREIGN_FIXED = ["&amp;", "&lt;", "&gt;", "&quot;", "&apos;", "&nbsp;", "&eacute;", "&euro;", "&;", "&#;", "&#x;", "&# 65;", "&&#65;;",
+                 "%", "%%", "%d", "%s", "%5.2f", "%(x)s", "$x", "$(x)", "$$", "`x`", "''", '""', "??/", "#65;", "&#", "#", ";",
+                 "u65*", "uc1 u233*", "'e9", "par", "cell", "u-3913?", "*", "?", "~", "-", ":", "|", "+", "a&b;c"]
+FOREIGN_MIX = [("", ""), ("\u00e9", ""), ("", "\U0001F600"), ("x", "y"), ("\u0394 ", " \u20ac")]
+
+
+def _utf8_bytes(cp: int) -> bytes:
+    return chr(cp).encode("utf-8", "surrogatepass") if cp < 0x110000 else b"\xf4\x90\x80\x80"
+
+
+def foreign_strings(conv: bool, more: bool) -> list:
+    """form 'foreign': -> [(code point used for the class counters, string)], deterministic and duplicate-free"""
+    base = []
+    for t in FOREIGN_TARGETS_QUICK + (FOREIGN_TARGETS_MORE if more else []):
+        b = _utf8_bytes(t)
+        base += [f"&#{t};", f"&#{t}", f"&#{t:07d};", f"&#x{t:x};", f"&#X{t:04X};", f"&#{t};&#{t};",
+                 "".join(f"%{x:02X}" for x in b), "".join(f"={x:02X}" for x in b), f"U+{t:04X}", f"u{t}*", f"#{t}"]
+    base += FOREIGN_FIXED
+    out = {}
+    for s in base:
+        for a, b in FOREIGN_MIX:
+            x = a + s + b
+            if conv and ("^" in x or "_" in x or ">=" in x or "<=" in x):
+                continue
+            out.setdefault(x, max(ord(c) for c in x))
+    return [(cp, x) for x, cp in out.items()]
+
+
 def slot_string(cp: int, form: str, fill: int) -> str:
     if form == "whole":
         return chr(cp)
@@ -460,6 +494,9 @@ def eval_case(case: dict) -> dict:
     if form == "pairs":
         ps = pair_strings(case)
         cps, strings = [p[0] for p in ps], [p[1] for p in ps]
+    elif form == "foreign":
+        ps = foreign_strings(conv, case.get("more", False))[case["lo"]:case["hi"]]
+        cps, strings = [p[0] for p in ps], [p[1] for p in ps]
     else:
         cps = case_cps(case)
         strings = [slot_string(cp, form, fill) for cp in cps]
@@ -583,7 +620,10 @@ def plan(run):
                 "with every filler pair. both tiers: every ordered pair of boundary code points as a two-character string (quick: body, title; "
                 "thorough: six positions), and body cells taken from Categorical / Enum / List(String) / Object columns (display text = str(value); "
                 "for lists: the string must be readable inside the cell text) - quick: the boundary code points, whole and inner, on and off; "
-                "thorough: additionally all of U+0080-07FF and every 257th code point. non-trivial = the document contains a code point >= U+0080; distinct = distinct case")
+                "thorough: additionally all of U+0080-07FF and every 257th code point. both tiers: ASCII text that is escape syntax of another layer "
+                "(XML/HTML character references decimal/hex/named, percent-encoding, quoted-printable, U+ notation, printf/shell/SQL directives, RTF words "
+                f"without backslash: 11 syntaxes x {len(FOREIGN_TARGETS_QUICK)} (quick) / {len(FOREIGN_TARGETS_QUICK) + len(FOREIGN_TARGETS_MORE)} (thorough) target numbers + "
+                f"{len(FOREIGN_FIXED)} fixed strings), alone and mixed with non-ASCII characters ({len(FOREIGN_MIX)} mixes), x 12 positions + 4 non-String dtypes x {{on, off}}. non-trivial = the document contains a code point >= U+0080; distinct = distinct case")
     run.assumptions = [
         "reader decoding rules: \\ansi without \\ansicpg = cp1252; \\uN signed 16 bit followed by \\ucN fallback characters; surrogate pairs combined",
         "U+005C, U+007B, U+007D are not in the space (raw RTF pass-through is a documented feature); ^ and _ only with conversion off",
@@ -606,6 +646,18 @@ def plan(run):
               for pos in (("body", "title") if quick else ("body", "colheader", "title", "footnote_table", "source_para", "page_header"))
               for conv in (True, False) for lo in range(0, len(BOUNDARY), 14)]
     run.layer("boundary-pairs", fn, pcases, chunk=2, total=len(pcases))
+
+    # text that is escape syntax of another layer, in every position and in the non-String columns
+    fcases = []
+    nforeign = {conv: len(foreign_strings(conv, not quick)) for conv in (True, False)}
+    for conv in (True, False):
+        for pos in POSITIONS:
+            step = PER_DOC[pos] if pos in ("subline_by", "page_by") else nforeign[conv]
+            fcases += [{"pos": pos, "conv": conv, "form": "foreign", "more": not quick, "lo": lo, "hi": lo + step}
+                       for lo in range(0, nforeign[conv], step)]
+        fcases += [{"pos": "body", "dtype": dt, "conv": conv, "form": "foreign", "more": not quick, "lo": 0, "hi": nforeign[conv]}
+                   for dt in DTYPES]
+    run.layer("foreign-escape-syntax-all-positions", fn, fcases, chunk=3, total=len(fcases))
 
     # body cells from columns that are not of dtype String (their display text is str(value))
     if quick:
@@ -648,7 +700,7 @@ def plan(run):
     nbody = sum(len(case_cps(c)) for c in body)
     if not quick and nbody != space_size(True) + space_size(False):
         run.harness_errors.append({"layer": "accounting", "case": None, "error": f"body layer enumerates {nbody} slots, space has {space_size(True) + space_size(False)}"})
-    exp_body = nbody * (1 if quick else 2) + nb * (1 + len(fills)) + npairs
+    exp_body = nbody * (1 if quick else 2) + nb * (1 + len(fills)) + npairs + nforeign[True] + nforeign[False]
     if all(l["completed"] for l in run.layers) and got != exp_body and not run.viol:
         run.harness_errors.append({"layer": "accounting", "case": None,
                                    "error": f"body slots checked {got}, expected {exp_body}"})
@@ -658,5 +710,6 @@ def plan(run):
     for need in ("latin1", "U+00B1", "bmp-low", "bmp-high", "astral", "ascii"):
         if not run.cnt.get("compared:" + need):
             run.harness_errors.append({"layer": "vacuity", "case": None, "error": f"no code point of class {need} was compared"})
+    run.extra["foreign_escape_strings"] = {"conversion_on": nforeign[True], "conversion_off": nforeign[False]}
     run.extra["space"] = {"code_points_conversion_on": space_size(True), "code_points_conversion_off": space_size(False),
                           "positions": list(POSITIONS), "body_slots_enumerated_this_run": nbody}
